@@ -48,6 +48,22 @@ func main() {
 	for _, v := range pktgen.SampleVersions(f.Tier == "thorough") {
 		sample[v] = true
 	}
+	// every (state, dir, type) is also run at the first and the last protocol it is registered for
+	type sdt struct {
+		st  string
+		dir proto.Direction
+		tn  string
+	}
+	lo, hi := map[sdt]proto.Protocol{}, map[sdt]proto.Protocol{}
+	for _, r := range regs {
+		k := sdt{r.StateName, r.Dir, r.Type.String()}
+		if v, ok := lo[k]; !ok || r.Proto < v {
+			lo[k] = r.Proto
+		}
+		if v, ok := hi[k]; !ok || r.Proto > v {
+			hi[k] = r.Proto
+		}
+	}
 	perReg := 2
 	if f.Tier == "search" {
 		perReg = 12
@@ -60,10 +76,10 @@ func main() {
 	covered := map[string]bool{}
 	bigBudget := 6 // cases with a 32767-size field per run
 	for _, r := range regs {
-		if !sample[r.Proto] {
+		tn := r.Type.String()
+		if k := (sdt{r.StateName, r.Dir, tn}); !sample[r.Proto] && lo[k] != r.Proto && hi[k] != r.Proto {
 			continue
 		}
-		tn := r.Type.String()
 		for k := 0; k < perReg; k++ {
 			cr := rng.Fork()
 			g := &pktgen.G{R: cr, Proto: r.Proto, Dir: r.Dir, State: r.StateName}
